@@ -82,7 +82,9 @@ def run(ctx):
                 tgt = sd.Target(dims, s=ctx.rng.choice([0.5, 1.0, 2.0]), c=0.3, prior=prior, nan_above=nan_above)
                 if opt.get("periodic"):
                     tgt.shift0 = 6.0            # periodic interval [1, 11): the wrap must act on the parameter, not on its standardised value
-                flow = sd.FakeFlow(dims, seed=ctx.rng.randrange(1000))
+                # a proposal without support far out (log q = -inf there): at beta = 1 the proposal term is 0 * (-inf)
+                qbox = 6.0 if ctx.rng.random() < 0.4 else None
+                flow = sd.FakeFlow(dims, seed=ctx.rng.randrange(1000), support=qbox)
                 akw = {}
                 if opt.get("bounds"):
                     akw["prior_bounds"] = tgt.bounds_dict()
@@ -126,7 +128,7 @@ def run(ctx):
                 z = z0[:n] + rngn.normal(0, 0.3, size=(n, dims))
                 if not opt.get("bounds") or opt.get("periodic"):
                     z[0] = z[0] * 0 + 50.0           # far outside a box prior when the map is unbounded
-                beta = ctx.rng.choice([1.0, 0.5, 0.25, 1e-3, 0.999])
+                beta = ctx.rng.choice([1.0, 0.5, 0.25, 1e-3, 0.999]) if qbox is None else ctx.rng.choice([1.0, 1.0, 0.5])
                 zin = z if T.xp.__name__.endswith("numpy") or kind in ("emcee_smc", "emcee") else T.xp.asarray(z, dtype=T.dtype)
                 # an undefined (NaN) likelihood at a point INSIDE the prior support, in every namespace: row 1 (its pre-image is known
                 # before the kernel's log-density is evaluated)
